@@ -1,6 +1,6 @@
 (* Props/C08.v — property C08: Timing yields exactly the requested timestamps, without drift, or refuses. *)
 From Coq Require Import ZArith List.
-From NV Require Import Common.Py Spec.TimingSpec Model.Timing Proofs.TimingProofs.
+From NV Require Import Common.Py Spec.TimingSpec Model.Timing Proofs.TimingProofs Proofs.C08Windows.
 Open Scope Z_scope.
 
 (* REGULAR: n timestamps, the k-th is timestamp + time_offset + (i+k)*sample_interval exactly, although
@@ -39,6 +39,27 @@ Print Assumptions C08_negative_arguments.
 Theorem C08_monotonic_iff : forall l, monotonic_sm l = monotone l.
 Proof. exact monotonic_iff. Qed.
 Print Assumptions C08_monotonic_iff.
+
+(* the timestamp of a sample does not depend on the window it is read through (Proofs/C08Windows.v):
+   the k-th timestamp of any window, and adjacent windows concatenate, for both modes *)
+Theorem C08_regular_kth : forall r ts off si i n l k, (k < n)%nat ->
+  gen_regular r ts off si i n = Ok l ->
+  nth_error l k = Some (ts + match off with Some o => o | None => 0 end + (i + Z.of_nat k) * si).
+Proof. exact regular_kth. Qed.
+Print Assumptions C08_regular_kth.
+Theorem C08_regular_window_split : forall r ts off si i n m l l1 l2,
+  gen_regular r ts off si i (n + m) = Ok l ->
+  gen_regular r ts off si i n = Ok l1 ->
+  gen_regular r ts off si (i + Z.of_nat n) m = Ok l2 ->
+  l = l1 ++ l2.
+Proof. exact regular_window_split. Qed.
+Print Assumptions C08_regular_window_split.
+Theorem C08_irregular_window_split : forall l i n m r,
+  0 <= i -> 0 <= n -> 0 <= m ->
+  spec_irregular l i (n + m) = Ok r ->
+  exists r1 r2, spec_irregular l i n = Ok r1 /\ spec_irregular l (i + n) m = Ok r2 /\ r = r1 ++ r2.
+Proof. exact irregular_window_split. Qed.
+Print Assumptions C08_irregular_window_split.
 
 Example C08_witness :
   gen_regular {| lo_td := -100; hi_td := 100; lo_dtm := -1000; hi_dtm := 1000 |} 10 (Some 1) 3 2 4 = Ok [17; 20; 23; 26] /\
